@@ -18,6 +18,8 @@ CONSTANTS
   DEV_HiBkgIgnored = FALSE
   DEV_UnlistedDisabledOnline = FALSE
   DEV_LoadContactsClobbers = FALSE
+  DEV_GoneUnlistedDropped = FALSE
+  DEV_P2PLastDelSilent = FALSE
   DEV_NewGrpNoSupd = FALSE
   DEV_StaleAcrossReload = FALSE
   Kinds = {"me", "disc", "bg", "mute"}
@@ -32,5 +34,6 @@ NEXT Next
 VIEW View
 INVARIANT OnlineCountOK
 INVARIANT NoLeakOK
+INVARIANT GoneDeliveredOK
 INVARIANT QuiescentConverged
 CHECK_DEADLOCK FALSE
